@@ -2,13 +2,13 @@
 From Coq Require Import String.
 From Coq Require Import List Ascii ZArith Bool Lia.
 From CGV Require Import Base.PyBase Base.PyVal Base.NxGraph Resolve.Bonding Resolve.GraphOps Resolve.Pipeline
-     Resolve.StepCheck Resolve.MapDefs Resolve.NxCheck.
+     Resolve.StepCheck Resolve.PipelineFull Resolve.FullCheck Resolve.MapDefs Resolve.NxCheck.
 Import ListNotations.
 Open Scope Z_scope.
 
 Inductive case := KStep (c : stepcase) | KNx (c : nxcase).
 Definition corr_ok (c : case) : bool :=
-  match c with KStep s => step_corr s | KNx n => nx_corr n end.
+  match c with KStep s => step_corr s && full_corr s | KNx n => nx_corr n end.
 
 (** (pre, post) graphs of rebuild_h_atoms: the aromaticity transcript *)
 Definition c02_pp (c : stepcase) : option (graph * graph) :=
